@@ -1,194 +1,219 @@
 package schema
 
-import "sort"
+import (
+	"fmt"
+	"sort"
+)
 
 // ForV1Manifest restricts a random manifest (in place) to what the root-module generation handles; it is applied by
 // the C12 harness for generation "v1" only, after the manifest has been drawn (both generations see the same draws,
-// what v2 gets is not touched). Every rule removes one construct on which the root generator fails on the unchanged
-// tree; each has a witness schema in harness/genprops/gen_v1_test.go (the construct stays well-formed Pegasus, so the
-// witness is what keeps the failure visible). It returns one note per change.
+// what v2 gets is not touched). It returns one note per change.
 //
-//  1. partial_update with returnEntity (rule of ForV1): the generator emits calls to restli.PartialUpdateWithReturnEntity /
-//     RegisterPartialUpdateWithReturnEntity, which the root module's restli package does not have.
-//  2. import cycles between generated packages. codegen/utils/type_registry.go FlagCyclicDependencies (a) walks two Go maps, so
-//     which types move to the conflictResolution package differs from run to run, (b) only sees cycles closed by one
-//     chain of type references, not a.X -> b.Y next to b.Z -> a.W, nor cycles through an include (Record.InnerTypes omits
-//     the included records the struct embeds), and (c) two moved types with the same short name are written to the same
-//     file of conflictResolution. (v2: repaired by 2969157 and 47b39ee; v2 renames clashing types.) The filter keeps
-//     the package import graph acyclic: types are visited in declaration order and a reference from namespace A into
-//     namespace B is kept only while B does not already reach A; a dropped field type becomes string, a dropped union
-//     member or include is removed. Cycles inside one namespace (recursive types) stay.
-//  3. complex keys whose key record has no fields at all (the struct embeds the key record only through its fields, so
-//     the generated ComplexKeyEquals refers to a member that does not exist) or has a field with a default, own or
-//     inherited (UnmarshalRestLi of the key calls populateLocalDefaultValues, which is never generated for the key
-//     struct and is unexported in the embedded record's package): the collection is keyed by string instead.
+// One rule is left, for the one open root-module finding (KF-C12-v1-conflict-resolution-name-clash, witness in
+// harness/genprops/gen_v1_test.go): the root generator moves every type that is on a dependency cycle between packages,
+// and every type reachable from such a type, to the single package conflictResolution and writes it to
+// conflictResolution/<Name>.gr.go without renaming, so two moved types with the same short name from different namespaces
+// end up in one file and the one written later replaces the other (v2 renames such types). The filter gives the later
+// declared of two such types a fresh short name (<Name>Cr<k>) and rewrites every reference to it; nothing else of the
+// manifest changes (same graph, same cycles, same kinds).
+//
+// Which types count as "may be moved" is an over-approximation that does not depend on the generator's traversal order:
+// all types of a namespace that lies on a cycle of the namespace reference graph (edges: field, include, union member,
+// complex key -> key / params), closed under reachability. Every type the generator flags is in that set: a type-level
+// cycle (codegen/utils/type_registry.go FindCycle: a reference path that leaves a namespace and comes back) runs through
+// namespaces of one such cycle, the package-level pass flags types of packages on an import cycle, and FlagCyclic adds
+// what those types reach.
+//
+// The classes repaired in the tree are back in the v1 grammar (partial_update with returnEntity, import cycles between
+// packages incl. through includes, complex keys over a key record that is empty or has defaults); their witnesses stay
+// in gen_v1_test.go as regression cases.
 func (s *Schema) ForV1Manifest() []string {
-	notes := s.ForV1()
-	notes = append(notes, s.acyclicPackagesV1()...)
-	notes = append(notes, s.complexKeysV1()...)
+	notes := s.distinctMovedNamesV1()
 	s.Reindex()
 	return notes
 }
 
-func (s *Schema) acyclicPackagesV1() []string {
-	var notes []string
-	edges := map[string]map[string]bool{}
-	var reaches func(from, to string, seen map[string]bool) bool
-	reaches = func(from, to string, seen map[string]bool) bool {
-		if from == to {
-			return true
-		}
-		if seen[from] {
-			return false
-		}
-		seen[from] = true
-		var next []string
-		for n := range edges[from] {
-			next = append(next, n)
-		}
-		sort.Strings(next)
-		for _, n := range next {
-			if reaches(n, to, seen) {
-				return true
-			}
-		}
-		return false
-	}
-	// allow reports whether namespace `from` may import namespace `to`, recording the edge when it may
-	allow := func(from, to string) bool {
-		if from == to {
-			return true
-		}
-		if reaches(to, from, map[string]bool{}) {
-			return false
-		}
-		if edges[from] == nil {
-			edges[from] = map[string]bool{}
-		}
-		edges[from][to] = true
-		return true
-	}
-	var fix func(from *Named, t Type) (Type, bool)
-	fix = func(from *Named, t Type) (Type, bool) {
+// refsV1 lists the named types a type references directly (as the root spec sees them).
+func (s *Schema) refsV1(n *Named) []Ident {
+	var out []Ident
+	var walk func(t Type)
+	walk = func(t Type) {
 		switch {
 		case t.Ref != nil:
-			if !allow(from.Namespace, t.Ref.Namespace) {
-				return P("string"), true
-			}
+			out = append(out, *t.Ref)
 		case t.Array != nil:
-			if e, ch := fix(from, *t.Array); ch {
-				return A(e), true
-			}
+			walk(*t.Array)
 		case t.Map != nil:
-			if e, ch := fix(from, *t.Map); ch {
-				return M(e), true
+			walk(*t.Map)
+		}
+	}
+	switch n.Kind {
+	case "record":
+		out = append(out, n.Includes...)
+		for _, f := range n.Fields {
+			walk(f.Type)
+		}
+	case "union":
+		for _, m := range n.Members {
+			walk(m.Type)
+		}
+	case "complexkey":
+		out = append(out, *n.Key, *n.Params)
+	}
+	return out
+}
+
+func (s *Schema) distinctMovedNamesV1() []string {
+	s.Reindex()
+	// namespace reference graph and its reachability relation
+	nsEdges := map[string]map[string]bool{}
+	for _, n := range s.Types {
+		for _, r := range s.refsV1(n) {
+			if r.Namespace != n.Namespace {
+				if nsEdges[n.Namespace] == nil {
+					nsEdges[n.Namespace] = map[string]bool{}
+				}
+				nsEdges[n.Namespace][r.Namespace] = true
 			}
 		}
-		return t, false
+	}
+	var nsReach func(from string, seen map[string]bool)
+	nsReach = func(from string, seen map[string]bool) {
+		for to := range nsEdges[from] {
+			if !seen[to] {
+				seen[to] = true
+				nsReach(to, seen)
+			}
+		}
+	}
+	onCycle := map[string]bool{}
+	for ns := range nsEdges {
+		seen := map[string]bool{}
+		nsReach(ns, seen)
+		if seen[ns] {
+			onCycle[ns] = true
+		}
+	}
+	if len(onCycle) == 0 {
+		return nil
+	}
+	// types that may be moved: those of namespaces on a cycle, closed under reachability
+	moved := map[Ident]bool{}
+	var mark func(id Ident)
+	mark = func(id Ident) {
+		if moved[id] {
+			return
+		}
+		moved[id] = true
+		for _, r := range s.refsV1(s.Lookup(id)) {
+			mark(r)
+		}
 	}
 	for _, n := range s.Types {
-		switch n.Kind {
-		case "record":
-			var incs []Ident
-			for _, inc := range n.Includes {
-				ok := true
-				// the flattened spec makes the including record reference every type its included fields reference
-				for _, f := range s.AllFields(s.Lookup(inc)) {
-					if _, ch := fix(n, f.Type); ch {
-						ok = false
-					}
-				}
-				if ok && allow(n.Namespace, inc.Namespace) {
-					incs = append(incs, inc)
-				} else {
-					notes = append(notes, n.Full()+": include of "+inc.Full()+" dropped (package cycle)")
-				}
-			}
-			n.Includes = incs
-			for i := range n.Fields {
-				if t, ch := fix(n, n.Fields[i].Type); ch {
-					notes = append(notes, n.Full()+"."+n.Fields[i].Name+": "+n.Fields[i].Type.String()+" -> "+t.String()+" (package cycle)")
-					n.Fields[i].Type = t
-					if n.Fields[i].Default != nil {
-						n.Fields[i].Default = nil
-						n.Fields[i].Optional = true
-					}
-				}
-			}
-		case "union":
-			var ms []Member
-			for _, m := range n.Members {
-				if _, ch := fix(n, m.Type); ch {
-					notes = append(notes, n.Full()+": member "+m.Alias+" dropped (package cycle)")
-					continue
-				}
-				ms = append(ms, m)
-			}
-			if len(ms) == 0 {
-				ms = []Member{{P("string"), "string"}}
-			}
-			n.Members = ms
+		if onCycle[n.Namespace] {
+			mark(n.Ident)
 		}
 	}
-	// annotations of a resource name fields of its entity: drop those that went away with an include
-	for _, r := range s.Resources {
-		if r.Schema == nil || r.Schema.Ref == nil {
+	// the later declared of two such types with the same short name gets a fresh one
+	shortTaken := map[string]bool{}
+	for _, n := range s.Types {
+		shortTaken[n.Name] = true
+	}
+	seen := map[string]bool{}
+	rename := map[Ident]Ident{}
+	var notes []string
+	for _, n := range s.Types {
+		if !moved[n.Ident] {
 			continue
 		}
-		have := map[string]bool{}
-		for _, f := range s.AllFields(s.Lookup(*r.Schema.Ref)) {
-			have[f.Name] = true
+		if !seen[n.Name] {
+			seen[n.Name] = true
+			continue
 		}
-		keep := func(in []string) (out []string) {
-			for _, x := range in {
-				if have[x] {
-					out = append(out, x)
-				}
+		for k := 1; ; k++ {
+			fresh := fmt.Sprintf("%sCr%d", n.Name, k)
+			if !shortTaken[fresh] {
+				shortTaken[fresh] = true
+				seen[fresh] = true
+				rename[n.Ident] = Ident{Name: fresh, Namespace: n.Namespace}
+				notes = append(notes, n.Full()+" renamed to "+fresh+" (another type named "+n.Name+" may be moved to conflictResolution too)")
+				break
 			}
-			return out
 		}
-		r.ReadOnly, r.CreateOnly = keep(r.ReadOnly), keep(r.CreateOnly)
 	}
+	if len(rename) == 0 {
+		return nil
+	}
+	s.renameTypes(rename)
+	sort.Strings(notes)
 	return notes
 }
 
-func (s *Schema) complexKeysV1() []string {
-	var notes []string
-	drop := map[Ident]bool{}
+// renameTypes rewrites the identity of the given types and every reference to them (field, parameter, return, metadata,
+// key and entity types, includes, union members with their type-derived member keys, complex keys).
+func (s *Schema) renameTypes(rename map[Ident]Ident) {
+	id := func(i Ident) Ident {
+		if to, ok := rename[i]; ok {
+			return to
+		}
+		return i
+	}
+	var typ func(t Type) Type
+	typ = func(t Type) Type {
+		switch {
+		case t.Ref != nil:
+			return RI(id(*t.Ref))
+		case t.Array != nil:
+			return A(typ(*t.Array))
+		case t.Map != nil:
+			return M(typ(*t.Map))
+		}
+		return t
+	}
+	ptr := func(t *Type) *Type {
+		if t == nil {
+			return nil
+		}
+		x := typ(*t)
+		return &x
+	}
+	fields := func(fs []Field) {
+		for i := range fs {
+			fs[i].Type = typ(fs[i].Type)
+		}
+	}
+	for _, n := range s.Types {
+		n.Ident = id(n.Ident)
+		for i := range n.Includes {
+			n.Includes[i] = id(n.Includes[i])
+		}
+		fields(n.Fields)
+		for i := range n.Members {
+			m := &n.Members[i]
+			if m.Type.Ref != nil && m.Alias == m.Type.Ref.Full() {
+				m.Alias = id(*m.Type.Ref).Full() // an unaliased member is keyed by the full name of its type
+			}
+			m.Type = typ(m.Type)
+		}
+		if n.Key != nil {
+			k := id(*n.Key)
+			n.Key = &k
+		}
+		if n.Params != nil {
+			p := id(*n.Params)
+			n.Params = &p
+		}
+	}
 	for _, r := range s.Resources {
-		sg := &r.Segments[len(r.Segments)-1]
-		if sg.Key == nil || sg.Key.Ref == nil {
-			continue
+		r.Schema = ptr(r.Schema)
+		for i := range r.Segments {
+			r.Segments[i].Key = ptr(r.Segments[i].Key)
 		}
-		ck := s.Lookup(*sg.Key.Ref)
-		if ck.Kind != "complexkey" {
-			continue
-		}
-		fields := s.AllFields(s.Lookup(*ck.Key))
-		why := ""
-		if len(fields) == 0 {
-			why = "key record without fields"
-		}
-		for _, f := range fields {
-			if f.Default != nil {
-				why = "key record with a default"
-			}
-		}
-		if why != "" {
-			drop[ck.Ident] = true
-			k := P("string")
-			sg.Key = &k
-			notes = append(notes, r.Namespace+": complex key replaced by a string key ("+why+")")
+		for i := range r.Methods {
+			m := &r.Methods[i]
+			fields(m.Params)
+			m.Return, m.Metadata = ptr(m.Return), ptr(m.Metadata)
 		}
 	}
-	if len(drop) > 0 {
-		var keep []*Named
-		for _, n := range s.Types {
-			if !drop[n.Ident] {
-				keep = append(keep, n)
-			}
-		}
-		s.Types = keep
-	}
-	return notes
+	s.Reindex()
 }
